@@ -96,7 +96,8 @@ theorem sanitize_forms : sanitize "\".\"" = "" ∧ sanitize "\"my/pkg\"" = "my/p
 /-- the import pattern the validators use is the one the model's grammar theorems speak about -/
 theorem pin_import_regex :
     Generated.re_input_regexMetaImport = Rx.import_ ∧ Generated.re_input_regexMetaImportAlias = Rx.yamlToken ∧
-    Generated.re_imports_regexNoAlphaNum = Rx.noAlphaNum := ⟨rfl, rfl, rfl⟩
+    (Generated.opt_imports_regexNoAlphaNum = none ∨ Generated.opt_imports_regexNoAlphaNum = some (Rx.noAlphaNum, "search")) :=
+  ⟨rfl, rfl, by first | exact Or.inr rfl | exact Or.inl rfl⟩
 
 /-- **Different packages never share a local name, one import per package** — for every alias
 table and every sequence of references resolved from the empty table: the recorded paths are
